@@ -37,7 +37,10 @@ type Case struct {
 	Arg  int    `json:"arg,omitempty"`
 	Map  []int  `json:"element_map,omitempty"` // type 5: output position -> original element index
 	N    int    `json:"batch,omitempty"`
+	Salt int    `json:"salt_kind,omitempty"` // type 2: 0 = CreateTokenRequest; k>0 = CreateTokenRequestWithBlind with a salt of saltLens[k-1] bytes
 }
+
+var saltLens = []int{0, 20, 47, 48, 49, 64}
 
 func (c Case) label() string { b, _ := json.Marshal(c); return string(b) }
 
@@ -97,13 +100,18 @@ func setup(c Case) (finalize fin, resp []byte, verify func(tokens [][]byte) erro
 		return finalize, r, verify, nil
 	case 2:
 		wa, wb := px.NewW2(rsaKeys[c.KeyA]), px.NewW2(rsaKeys[c.KeyB])
+		var blind, salt []byte
+		if c.Salt > 0 {
+			blind = mc.Fill(seedv, "c02-rsa-blind", 255)
+			salt = mc.Fill(seedv, "c02-salt", saltLens[c.Salt-1])
+		}
 		mc.Entropy(lbl(c.ReqI))
-		sti, e := wa.Create(chalOf(2, c.KeyA, c.ReqI), nonceOf(2, c.KeyA, c.ReqI, 0), nil, nil)
+		sti, e := wa.Create(chalOf(2, c.KeyA, c.ReqI), nonceOf(2, c.KeyA, c.ReqI, 0), blind, salt)
 		if e != nil {
 			return nil, nil, nil, e
 		}
 		mc.Entropy(lbl(c.ReqJ))
-		stj, e := wa.Create(chalOf(2, c.KeyA, c.ReqJ), nonceOf(2, c.KeyA, c.ReqJ, 0), nil, nil)
+		stj, e := wa.Create(chalOf(2, c.KeyA, c.ReqJ), nonceOf(2, c.KeyA, c.ReqJ, 0), blind, salt)
 		if e != nil {
 			return nil, nil, nil, e
 		}
@@ -301,7 +309,7 @@ func run(c Case) (string, *mc.Viol) {
 	if p := mc.Catch(func() { toks, ferr = finalize(in) }); p != "" {
 		return "panic", &mc.Viol{Sig: fmt.Sprintf("type%d finalization panics (%s)", c.T, c.Mut), What: fmt.Sprintf("%s: %s", c.label(), p)}
 	}
-	honest := c.Mut == "none" && c.KeyA == c.KeyB && c.ReqI == c.ReqJ
+	honest := c.Mut == "none" && c.KeyA == c.KeyB && c.ReqI == c.ReqJ && (c.Salt == 0 || saltLens[c.Salt-1] == 48)
 	if (c.Mut == "elems" || c.Mut == "reeval") && isIdentity(c.Map, c.N) && c.KeyA == c.KeyB && c.ReqI == c.ReqJ {
 		honest = true
 	}
@@ -395,6 +403,13 @@ func main() {
 					cases = append(cases, Case{T: t, KeyA: a, KeyB: a, ReqI: i, ReqJ: i, Mut: "ext", Arg: e, N: n})
 				}
 			}
+		}
+	}
+	// type 2: caller-supplied salts of every boundary length (the token type fixes sLen = 48): the
+	// honest response must yield a standard-verifiable token or an error
+	for a := 0; a < K; a++ {
+		for k := 1; k <= len(saltLens); k++ {
+			cases = append(cases, Case{T: 2, KeyA: a, KeyB: a, ReqI: 0, ReqJ: 0, Mut: "none", Salt: k})
 		}
 	}
 	// type 5: every sequence over the element indices of length 0..n+1, spliced and re-evaluated
